@@ -3,6 +3,22 @@
 import json, os, re, sys
 ROOT = os.path.join(os.path.dirname(os.path.abspath(__file__)), '..', 'seeded')
 NEEDS = {
+ 'C09_5': "factorise() of a multiple of a single basis blade with a negative coefficient (e2^e1, -2.5*e134)",
+ 'C09_6': "(1+v).isVersor() with v a basis vector squaring to -1 (any signature with a negative direction)",
+ 'C10_5': "jitted grade selection on a layout whose blade order does not store each grade contiguously (bitmap order, n >= 3)",
+ 'C10_6': "one MultiVector object passed to jitted code, its .value re-pointed to a strided view of the same dtype, passed again",
+ 'C11_5': "between_basis_vectors(A, B) without mapping, then the same call on layouts of equal signatures and other basis-vector ids",
+ 'C11_6': "a matrix-backed transformation applied to a multivector of a layout with the same dimension and another signature",
+ 'C12_5': "val_rotor_between_objects_explicit on two spheres that do not intersect (disjoint same orientation / nested opposite orientation)",
+ 'C12_6': "object_cost_function(..., symmetric=True) on spheres or planes (grade-4 objects square to -1)",
+ 'C14_5': "flat(p1..pk) with the points given partly as base vectors and partly as null vectors",
+ 'C14_6': "an operator object (rotation, translation, dilation, transversion) called on einf or a + t*einf",
+ 'C17_5': "ga_exp / val_exp on a rotation-free (pure translation) bivector kept in a variable",
+ 'C17_6': "layout.pseudoScalar / mv.pseudoScalar / mv.invPS() requested, written into with item assignment, requested again",
+ 'C19_5': "parse on layout A, then on layout B of the same signature with other names or another blade order, in one process",
+ 'C19_6': "eval(repr(M)) with pretty-printing off on an anonymous layout with ordered_integers(n, first_index=k), k >= 2",
+ 'C20_5': "write_ga_file with a basis-name list whose lexicographically largest name is not the longest (e.g. 'e9' and 'e10', ['x', 'y', 'einf'])",
+ 'C20_6': "MVArray.save, then the array modified through a view / in place / through an element, then MVArray.save again",
  'C02_5': "the python operator `A | B` with an operand whose non-scalar coefficients are all below eps (1e-12), e.g. (2^-45 A) | (2^45 B)",
  'C02_6': "`A << B` / `A.lc(B)` on mixed-grade operands where the highest grade of A exceeds that of B",
  'C01_5': "a layout whose storage order (custom BasisBladeOrder / legacy bladeTupList) does not store the scalar first",
